@@ -201,7 +201,9 @@ def _simp(exprs, simplifications):
     formulas."""
     for simp in simplifications:
         mexprs = apply_simp(exprs, simp)
-        if mexprs is not None:
+        # skip simplifications that do not change the input, e.g. because
+        # their nodes were removed by an earlier simplification
+        if mexprs is not None and mexprs is not exprs:
             yield mexprs
 
 
